@@ -1,4 +1,4 @@
-use crate::{LeanString, ToLeanStringError, UnwrapWithMsg, repr::Repr};
+use crate::{LeanString, ReserveError, ToLeanStringError, UnwrapWithMsg, repr::Repr};
 use alloc::string::String;
 use castaway::{LifetimeFree, match_type};
 use core::{fmt, fmt::Write, num::NonZero};
@@ -64,9 +64,29 @@ impl<T: fmt::Display> ToLeanString for T {
             &LeanString as s => return Ok(s.clone()),
 
             s => {
-                let mut buf = LeanString::new();
-                write!(buf, "{}", s)?;
-                return Ok(buf)
+                // `fmt::Write for LeanString` panics when an allocation fails. Write through an
+                // adapter that records the `ReserveError` instead, so that it is reported as
+                // `ToLeanStringError::Reserve`.
+                struct Adapter {
+                    buf: LeanString,
+                    error: Option<ReserveError>,
+                }
+                impl fmt::Write for Adapter {
+                    fn write_str(&mut self, s: &str) -> fmt::Result {
+                        self.buf.try_push_str(s).map_err(|e| {
+                            self.error = Some(e);
+                            fmt::Error
+                        })
+                    }
+                }
+                let mut adapter = Adapter { buf: LeanString::new(), error: None };
+                return match write!(adapter, "{}", s) {
+                    Ok(()) => Ok(adapter.buf),
+                    Err(e) => Err(match adapter.error {
+                        Some(reserve_error) => ToLeanStringError::Reserve(reserve_error),
+                        None => ToLeanStringError::Fmt(e),
+                    }),
+                };
             }
         });
         Ok(LeanString(repr))
